@@ -41,7 +41,7 @@ type tracer struct {
 	harness interface{} // a panic inside the tracer itself = harness bug
 
 	steps        int
-	work         uint64 // lower bound of the gas actually consumed: sum of the cost of all non-call steps
+	work         uint64 // lower bound of the gas actually consumed: cost of all non-call steps + memory expansion of call steps
 	maxDepth     int
 	innerFrames  int
 	failedFrames int // frames that ended in an error (any depth)
@@ -267,9 +267,13 @@ func (t *tracer) CaptureState(env *evm.EVM, pc uint64, op evm.OpCode, gas, cost 
 	f.memPrev, f.mem = f.mem, memory.Len()
 	f.lastGas, f.lastCost, f.lastOp, f.haveLast = gas, cost, op, true
 
-	// work actually done vs gas given
+	// work actually done vs gas given.  The cost of a CALL/CREATE-family step contains the gas it
+	// hands to the inner frame (counted there), so only its memory expansion is added, priced by the
+	// reference model.
 	if !isCallFamily(op) {
 		t.work += cost
+	} else if w1 > w0 {
+		t.work += memCost(w1) - memCost(w0)
 	}
 	if t.work > t.topGas && !t.cancelled {
 		t.cancelled = true
